@@ -323,7 +323,27 @@ func c16Grammar(c *Ctx, fn *ssa.Function) {
 		}
 		return v
 	}
-	isLine := func(st *ConcState, v ssa.Value) bool { return resolve(st, v) == lineV }
+	isLine := func(st *ConcState, v ssa.Value) bool {
+		r := resolve(st, v)
+		if r == lineV {
+			return true
+		}
+		// a small struct wrapped around the line buffer (the buffer embedded next to settings for writing to it)
+		if mi, ok := r.(*ssa.MakeInterface); ok {
+			r = resolve(st, mi.X)
+		}
+		if _, isS := types.Unalias(deref(r.Type())).Underlying().(*types.Struct); isS {
+			if _, _, fv := st.FieldOf(r, "Buffer"); fv != nil && resolve(st, fv) == lineV {
+				return true
+			}
+			for _, fv := range st.FieldValsOf(r) {
+				if resolve(st, fv) == lineV {
+					return true
+				}
+			}
+		}
+		return false
+	}
 	// v is (a field/bytes of) the clone made on this path
 	var fromClone func(st *ConcState, v ssa.Value, d int) bool
 	fromClone = func(st *ConcState, v ssa.Value, d int) bool {
@@ -433,6 +453,12 @@ func c16Grammar(c *Ctx, fn *ssa.Function) {
 			switch f.Name() {
 			case "AppendString", "WriteString":
 				d := st.Desc(args[1])
+				if r := resolve(st, args[1]); r != args[1] {
+					// a copy kept in a local (the separator remembered next to the line): what it was copied from
+					if rd := st.Desc(r); strings.HasSuffix(rd, ".ConsoleSeparator") || strings.HasSuffix(rd, ".LineEnding") {
+						d = rd
+					}
+				}
 				switch {
 				case strings.HasSuffix(d, ".ConsoleSeparator"):
 					return "sep"
